@@ -104,6 +104,8 @@ class Oracles:
             self._c10_obs(obs)
         if self.P("C11") and first:
             self._c11_boot()
+        if self.P("C11") and not first:
+            self._c11_mask()
 
     # ------------------------------------------------------------------
     # one transition through generative_step
@@ -137,7 +139,7 @@ class Oracles:
     # ------------------------------------------------------------------
     # a real step (with twins and companion generative step)
     # ------------------------------------------------------------------
-    def real_step(self, obj, x, plain, draws):
+    def real_step(self, obj, x, plain, draws, interpose=None):
         sim, cfg, env = self.sim, self.cfg, self.sim.env
         act = act_of(obj)
         cur = env.current_state
@@ -148,6 +150,18 @@ class Oracles:
         comp = None
         if self.P("C13"):
             comp = self.transition(cur, obj, plain_x, draws, tag="companion")
+            for e in interpose or ():
+                st2 = sim.states.get(e["src"])
+                if st2 is None:
+                    continue
+                p2, o2 = sim.resolve(e)
+                if o2 is None:
+                    continue
+                sim.counters.hit("fault.interposed_lookahead")
+                self.transition(st2, o2,
+                                p2 if sim.table.flat else list(p2),
+                                [float.fromhex(h) for h in e["u"]],
+                                background=True, tag="interposed")
         pre = sim_read(sim, cur)
         pre_t = cur.tensor.copy()
         sim.rnd.push(draws)
@@ -193,6 +207,8 @@ class Oracles:
             self._c09_obs_shape(obs_arr)
         if self.P("C10"):
             self._c10_obs(obs_arr)
+        if self.P("C11"):
+            self._c11_mask()
         sim.cur_sid = sim.keep_state(env.current_state)
         if done or trunc:
             sim.episode_over = True
@@ -345,7 +361,8 @@ class Oracles:
                         self.probe("privesc_low_access")
                     elif act.process not in cfg.hosts[t]["processes"]:
                         self.probe("privesc_refused_process_only")
-            if rec["host_pre"] and rec["net_pre"] and rec["chance"] is True:
+            if rec["host_pre"] and rec["net_pre"] and rec["chance"] is True \
+                    and cfg.symmetric:
                 want = max(pre[t][3], act.access)
                 if not rec["success"] or not post[t][0] or post[t][3] != want:
                     self.fail("C01.must", "all preconditions hold and the "
@@ -384,6 +401,9 @@ class Oracles:
             return
         if not rec["success"]:
             return
+        if not cfg.symmetric and act.kind in ("service_scan", "os_scan",
+                                              "exploit"):
+            return      # orientation of one-way connections is undocumented
         if act.kind in ("service_scan", "os_scan", "exploit"):
             if not model.pivot_ok(cfg, pre, act):
                 self.fail("C02.pivot", f"{act.kind} succeeded without a "
@@ -444,7 +464,7 @@ class Oracles:
         exp = model.expected_reachable(cfg, st)
         for h in cfg.order:
             comp, reach, disc, _ = st[h]
-            if bool(reach) != exp[h]:
+            if bool(reach) != exp[h] and cfg.symmetric:
                 self.fail("C03.reach-iff", "a host is reachable iff its "
                           "subnet is public or connected to a subnet with a "
                           "compromised host", host=h, reachable=reach,
@@ -474,6 +494,8 @@ class Oracles:
                 self.fail("C03.disc-provenance", "subnet scan succeeded on "
                           "a host that is not compromised",
                           action=act._asdict())
+            if not cfg.symmetric:
+                return
             D = model.scan_discovers(cfg, act.target)
             for h in cfg.order:
                 want = 1 if (pre[h][2] or h in D) else 0
@@ -698,7 +720,7 @@ class Oracles:
         if len(flags) > 1:
             self.fail("C07.flags", "more than one error flag", flags=flags,
                       action=act._asdict())
-        if act.kind == "noop":
+        if act.kind == "noop" or not self.cfg.symmetric:
             return
         eligible = rec["host_pre"] and rec["net_pre"]
         if eligible and not rec["reexploit"]:
@@ -757,6 +779,8 @@ class Oracles:
     def _c07_twins(self, lo, hi, rec):
         """Twin generative steps with the draw below / above prob."""
         act = rec["act"]
+        if not self.cfg.symmetric:
+            return
         eligible = rec["host_pre"] and rec["net_pre"]
         if not eligible:
             same = (lo["success"] == hi["success"]
@@ -864,8 +888,12 @@ class Oracles:
         allowed_rows = {t_idx}
         scanned = set()
         if act.kind == "subnet_scan":
-            scanned = {cfg.order.index(h)
-                       for h in model.scan_discovers(cfg, act.target)}
+            if cfg.symmetric:
+                scanned = {cfg.order.index(h)
+                           for h in model.scan_discovers(cfg, act.target)}
+            else:
+                scanned = {cfg.order.index(tuple(h)) for h, v in
+                           (info.get("discovered") or {}).items() if v}
             allowed_rows |= scanned
         rows_nz = {int(i) for i in np.unique(np.argwhere(nz)[:, 0])}
         if not rows_nz <= allowed_rows:
